@@ -74,7 +74,7 @@ theorem Inv.congr {s s' : PState} (h : Inv s) (h1 : s'.recoveryStack = s.recover
   have : (er s).pt = s.pt := rfl
   rw [this]; split <;> rfl
 @[simp] theorem er_failAt (s : PState) (b : Bool) (p : Pos) (w : String) : er (failAt s b p w) = failAt (er s) b p w := by
-  unfold failAt
+  unfold failAt failAtCore
   have h1 : (er s).maxFailPos = s.maxFailPos := rfl
   have h2 : (er s).maxFailInvert = s.maxFailInvert := rfl
   simp only [h1, h2]
